@@ -254,28 +254,6 @@ def _task_order(args):
     return st, vios, None
 
 
-def entry_points(pgn, payload, fast):
-    """name -> callable(decoder): the same message through every way a decoder can be handed it"""
-    ident = wire.can_id(3, pgn, 7, 255)
-    frames = wire.fast_frames(5, payload, None) if fast else [payload]
-
-    def framewise(one):
-        def run_(d):
-            last = None
-            for fr in frames:
-                last = one(d, fr)
-            return last
-        return run_
-    out = {"actisense": lambda d: d.decode_actisense_string(wire.actisense_line(3, 255, 7, pgn, payload)),
-           "plain_combined": lambda d: d.decode_basic_string(wire.plain_line(3, pgn, 7, 255, payload), already_combined=True)}
-    if fast or len(payload) <= 8:
-        out["ebyte"] = framewise(lambda d, fr: d.decode_tcp(wire.ebyte_packet(ident, fr)))
-        out["usb"] = framewise(lambda d, fr: d.decode_usb(wire.usb_packet(ident, fr)))
-        out["yd"] = framewise(lambda d, fr: d.decode_yacht_devices_string(wire.yd_line(ident, fr)))
-        out["plain_frames"] = framewise(lambda d, fr: d.decode_basic_string(wire.plain_line(3, pgn, 7, 255, fr)))
-    return out
-
-
 def _task_entry(args):
     """the conversion must not depend on the entry point: single frames, fast-packet messages reassembled
     from frames and pre-assembled messages, through every input format, on decoders with preferences"""
@@ -298,7 +276,7 @@ def _task_entry(args):
             if not isinstance(ref, tuple) and ref is not None and ref.id != defn.id:
                 ddef = db.by_id.get((ref.PGN, ref.id), defn)
             for m in maps:
-                for name, fn in entry_points(defn.pgn, payload, defn.fast).items():
+                for name, fn in wire.entry_points(defn.pgn, payload, defn.fast).items():
                     try:
                         got = fn(NMEA2000Decoder(preferred_units=m))
                     except Exception as ex:  # noqa: BLE001
